@@ -6,7 +6,7 @@ from sim import simset
 from sim.kernel import EventLog, Violation, digest_of
 
 ANCHORS = list("\\]^[-/$.(){}?+*|") + list("abcyzABYZ0189_") + list("!#%&,:;<=>@~\"' \n\t") + \
-    ["é", "ß", "Ж", "Ω", "ώ", "Ά", "中", "가", "😀", "\x00", "\x7f", "\U0010ffff", "\ud800", "ӿ", "֐"]
+    ["é", "ß", "Ж", "Ω", "ώ", "Ά", "中", "가", "😀", "\x00", "\x7f", "\U0010ffff", "\ud800", "\udfff", "\uffff", "ӿ", "֐"]
 NAMED = ["Any" + b for b in cm.NAMED] + ["AnyBut" + b for b in cm.NAMED]
 TOKS = sorted(cm.TOKENS)
 
